@@ -23,6 +23,9 @@ theorem Q.stAt_some_lt (q : Q) (i : Nat) (st : CellSt) (h : q.stAt i = some st) 
   apply Nat.lt_of_not_le
   intro hle
   rw [(Q.stAt_none_iff q i).mpr hle] at h; cases h
+theorem Q.itemAt_some_lt (q : Q) (i : Nat) (x : Item) (h : q.itemAt i = some x) : i < q.cells.length := by
+  obtain ⟨st, hst⟩ := Q.itemAt_some_stAt q i x h
+  exact Q.stAt_some_lt q i st hst
 theorem Q.cell_of (q : Q) (i : Nat) (x : Item) (st : CellSt) (h1 : q.itemAt i = some x) (h2 : q.stAt i = some st) :
     q.cells[i]? = some ⟨x, st⟩ := by
   simp only [Q.itemAt, Q.stAt] at *
